@@ -71,8 +71,14 @@ FACTORS = [
     ("np.where(a > 2, b, a)", ["a", "b"]),               # comparison
     ("{a * (2 if kk else 3) + b}", ["a", "b"]),          # conditional expression (on constants: both columns are evaluated)
     ("{sum([a * wt for wt in (1, 2)])}", ["a"]),         # comprehension (wt is a bound name, not a column)
+    # attribute access on / call of something that is not a (dotted) name
+    ("{(a + b).abs()}", ["a", "b"]),                     # method of a parenthesised expression
+    ("{(a - np.mean(a)).abs() + b}", ["a", "b"]),
+    ("{b * a[0].real}", ["a", "b"]),                     # attribute of a subscript
+    ("{fs[0](a) + fs[1](b)}", ["a", "b"]),               # call of a subscript (fs is a context list of functions)
+    ("{a * len('x'.join(['p', 'q']))}", ["a"]),          # method of a literal
+    ("{np.abs(a - b).max() * a}", ["a", "b"]),           # method of a call result
 ]
-NOISY = {"{a.values}", "{a.sum() * b}", "{a.sum()}", "{sum([a * wt for wt in (1, 2)])}"}
 LHS = [("", []), ("y ~ ", ["y"]), ("log(y) ~ ", ["y"]), ("`y z` ~ ", ["y z"])]
 
 COLUMNS = {
@@ -108,7 +114,8 @@ def _g(x):
     return x * 2
 
 
-REQ_CONTEXT = {"f": _f, "g": _g, "offsets": np.array([10.0, 20.0]), "lut": np.array([0.5, 2.0]), "kk": 2}
+REQ_CONTEXT = {"f": _f, "g": _g, "offsets": np.array([10.0, 20.0]), "lut": np.array([0.5, 2.0]), "kk": 2,
+               "fs": [_g, np.square]}
 
 
 def outcome(fn):
@@ -142,23 +149,13 @@ def drv_required(c, ctx, col):
             parts.append(facs[k])
     lhs_i = c.choose(len(ctx["lhs"]))
     lhs_text, lhs_needs = ctx["lhs"][lhs_i]
-    # Factors with a KNOWN, listed defect (K3a-c) or a reported one are combined with the partners `a`, `b` only (partner first),
-    # two left-hand sides, no three-factor shape: the runner keeps at most 200 violations per sub-check, known ones included, so
-    # hundreds of repeats of a known finding would crowd out a new one.
-    noisy = [q for q, p_ in enumerate(parts) if p_[0] in NOISY]
-    if noisy and len(parts) > 1:
-        if len(parts) > 2 or noisy != [1] or parts[0][0] not in ("a", "b") or lhs_i > 1:
-            col.count("scope:known-defect-factor-combined-with-a-b-only")
-            raise Skip()
-    if noisy and lhs_i > 1:
-        raise Skip()
     rhs_text = {"single": "%s", "sum": "%s + %s", "interaction": "%s:%s", "sum+interaction": "%s + %s:%s"}[shape] % tuple(p[0] for p in parts)
     text = lhs_text + rhs_text
     needs = sorted(set(lhs_needs).union(*[p[1] for p in parts]))
     full = frame(set(needs) | {"zz"})
     tag = "factors=%s" % [p[0] for p in parts]
     base_repro = ("import pandas as pd, numpy as np; from formulaic import *; f = lambda x, y: x + y; g = lambda x: x * 2; "
-                  "offsets = np.array([10., 20.]); lut = np.array([.5, 2.]); kk = 2; "
+                  "offsets = np.array([10., 20.]); lut = np.array([.5, 2.]); kk = 2; fs = [g, np.square]; "
                   "full = pd.DataFrame(%r).astype({%s}); " % (full.to_dict("list"), ", ".join("%r: object" % k for k in ("A", "G", "H") if k in full)))
     col.sample({"formula": text, "columns_read": needs})
 
@@ -525,8 +522,6 @@ def drv_dot(c, ctx, col):
     L = c.subset(cols)
     if L:
         form = c.pick(ctx["lhs_forms"])
-        if form == "{first.abs()}" and len(cols) > 2:
-            raise Skip()  # known finding K3d: keep its repeats few (the runner keeps at most 200 violations per sub-check)
         text = LHS_FORMS[form](L) + " ~ ."
         if form == "plain, dotted names unquoted" and text == LHS_FORMS["plain"](L) + " ~ .":
             raise Skip()  # identical to the 'plain' form
